@@ -106,7 +106,9 @@ Qed.
 Lemma lw_remove_spec st l x :
   LWInv st l -> In x (ids (lw_abs l)) ->
   exists l' st', lw_remove st l x = Ok (l', st') /\ LWInv st' l' /\ lw_abs l' = blank x (lw_abs l) /\
-    lw_count l' = lw_count l /\ lw_free l' = lw_free l + 1 /\ lw_time l' = lw_time l.
+    lw_count l' = lw_count l /\ lw_free l' = lw_free l + 1 /\ lw_time l' = lw_time l /\
+    queues (lw_locks l') = queues (lw_locks l) /\ tailNodeIndex (lw_locks l') = tailNodeIndex (lw_locks l) /\
+    baseQueueSize (lw_locks l') = baseQueueSize (lw_locks l).
 Proof.
   intros [I B LN ND IDX CNT] IN. unfold lw_abs in *. set (q := lw_locks l) in *.
   destruct (proj1 (ids_In _ _) IN) as (i & Hi).
@@ -126,7 +128,7 @@ Proof.
   eexists _, _. split; [reflexivity|]. cbn [lw_locks lw_count lw_free lw_time].
   replace (Z.to_nat (hp q + Z.of_nat i - hp q)) with i in G4 by lia.
   rewrite <- (blank_upd x (abs q) i ND Hi) in G4.
-  split; [|split; [exact G4|split; [reflexivity|split; reflexivity]]].
+  split; [|split; [exact G4|split; [reflexivity|split; [reflexivity|split; [reflexivity|split; [reflexivity|split; reflexivity]]]]]].
   constructor; cbn [lw_locks lw_count lw_free lw_time set_locks]; auto.
   - rewrite G4, ids_blank. apply NoDup_filter. exact ND.
   - intros j y Hj. rewrite G4 in Hj.
